@@ -162,7 +162,6 @@ Qed.
 Definition bl_tail (r1 : raft) : Res raft :=
   let r2 := r1 <| r_leader_id := r_id r1 |> <| r_state := Leader |> in
   let li := last_index (r_log r2) in
-  if negb (li =? persisted (r_log r2)) then Panic site_leader_persisted else
   let r3 := r2 <| r_uncommitted_size := 0 |> <| r_last_log_tail_index := li |> in
   match get_pr r3 (r_id r3) with
   | None => Panic site_self_progress
@@ -182,24 +181,16 @@ Proof. reflexivity. Qed.
 
 Lemma bl_tail_panics_iff r1 s :
   bl_tail r1 = Panic s <->
-  (last_index (r_log r1) <> persisted (r_log r1) /\ s = site_leader_persisted) \/
-  (last_index (r_log r1) = persisted (r_log r1) /\ get_pr r1 (r_id r1) = None /\
-   s = site_self_progress) \/
-  (last_index (r_log r1) = persisted (r_log r1) /\ (exists p, get_pr r1 (r_id r1) = Some p) /\
+  (get_pr r1 (r_id r1) = None /\ s = site_self_progress) \/
+  ((exists p, get_pr r1 (r_id r1) = Some p) /\
    log_append (r_log r1) [mkEntry 0 (r_term r1) (last_index (r_log r1) + 1) [] []] = Panic s).
 Proof.
   unfold bl_tail. cbv zeta.
-  change (r_log (r1 <| r_leader_id := r_id r1 |> <| r_state := Leader |>)) with (r_log r1).
-  destruct (last_index (r_log r1) =? persisted (r_log r1)) eqn:E; cbn [negb].
-  2:{ apply N.eqb_neq in E. split.
-      - intros H; injection H as <-. left; auto.
-      - intros [(_ & ->)|[(A & _)|(A & _)]]; [reflexivity|contradiction|contradiction]. }
-  apply N.eqb_eq in E.
   match goal with |- context [get_pr ?a ?b] => change (get_pr a b) with (get_pr r1 (r_id r1)) end.
   destruct (get_pr r1 (r_id r1)) as [p|] eqn:G.
   2:{ split.
-      - intros H; injection H as <-. right; left; auto.
-      - intros [(A & _)|[(_ & _ & ->)|(_ & [q Q] & _)]]; [contradiction|reflexivity|discriminate]. }
+      - intros H; injection H as <-. left; auto.
+      - intros [(_ & ->)|([q Q] & _)]; [reflexivity|discriminate]. }
   match goal with |- context [append_entry ?rr _] =>
     destruct (append_entry_noop rr) as (rr1 & Hl & Ht & ->) end.
   match goal with |- context [log_append ?l ?e] =>
@@ -207,37 +198,36 @@ Proof.
       with (log_append (r_log r1) [mkEntry 0 (r_term r1) (last_index (r_log r1) + 1) [] []]) end.
   destruct (log_append (r_log r1) _) as [x|s2]; cbn [bind].
   - split; [discriminate|].
-    intros [(A & _)|[(_ & A & _)|(_ & _ & A)]]; [contradiction|discriminate|discriminate].
+    intros [(A & _)|(_ & A)]; [discriminate|discriminate].
   - split.
-    + intros H; injection H as <-. right; right. repeat split; eauto.
-    + intros [(A & _)|[(_ & A & _)|(_ & _ & A)]]; [contradiction|discriminate|].
+    + intros H; injection H as <-. right. split; eauto.
+    + intros [(A & _)|(_ & A)]; [discriminate|].
       injection A as ->. reflexivity.
 Qed.
 
 (* become_leader: the complete decision list.  site_leader_noop_dropped cannot fire (the
-   no-op entry has no data, so the uncommitted-size limit never refuses it). *)
+   no-op entry has no data, so the uncommitted-size limit never refuses it); the assertion
+   last_index = persisted (site_leader_persisted) was removed by /repo 19c179c. *)
 Theorem become_leader_panics_iff r s :
   become_leader r = Panic s <->
   (r_state r = Follower /\ s = site_leader_from_follower) \/
   (r_state r <> Follower /\ r_draws r = [] /\ s = site_draws) \/
   (r_state r <> Follower /\ r_draws r <> [] /\
-   last_index (r_log r) <> persisted (r_log r) /\ s = site_leader_persisted) \/
-  (r_state r <> Follower /\ r_draws r <> [] /\ last_index (r_log r) = persisted (r_log r) /\
    get_pr r (r_id r) = None /\ s = site_self_progress) \/
-  (r_state r <> Follower /\ r_draws r <> [] /\ last_index (r_log r) = persisted (r_log r) /\
+  (r_state r <> Follower /\ r_draws r <> [] /\
    (exists p, get_pr r (r_id r) = Some p) /\
    log_append (r_log r) [noop_entry r] = Panic s).
 Proof.
   rewrite become_leader_unfold. destruct (role_eqb (r_state r) Follower) eqn:Ef.
   { apply role_eqb_eq in Ef. split.
     - intros H; injection H as <-. left; auto.
-    - intros [[_ ->]|[(? & _)|[(? & _)|[(? & _)|(? & _)]]]]; try reflexivity; contradiction. }
+    - intros [[_ ->]|[(? & _)|[(? & _)|(? & _)]]]; try reflexivity; contradiction. }
   apply role_eqb_neq in Ef.
   pose proof (reset_panics_iff r (r_term r)) as R.
   destruct (reset r (r_term r)) as [r1|s1] eqn:Er; cbn [bind].
   2:{ destruct (proj1 (R s1) eq_refl) as [Hd ->]. split.
       - intros H; injection H as <-. right; left. auto.
-      - intros [[? _]|[(_ & _ & ->)|[(_ & A & _)|[(_ & A & _)|(_ & A & _)]]]];
+      - intros [[? _]|[(_ & _ & ->)|[(_ & A & _)|(_ & A & _)]]];
           try contradiction; reflexivity. }
   assert (Hd : r_draws r <> []).
   { intros X. assert (Y : @Ok raft r1 = Panic site_draws) by (apply R; auto). discriminate Y. }
